@@ -413,7 +413,81 @@ fn delayed_ack_history(stale_len: usize, mid_len: usize, new_len: usize, deliver
     Ok((advanced, format!("final commits {:?}", cl.nodes.iter().map(RaftNode::commit_index).collect::<Vec<_>>())))
 }
 
-const OBS: [(&str, &str); 10] = [
+/// every entry some node has reported committed, by position (the ghost record the first sentence of the property quantifies over)
+#[derive(Default)]
+struct Reported { at: std::collections::BTreeMap<usize, (u64, u64)> }
+
+impl Reported {
+    /// record what the nodes `who` report committed now; Err if two reports disagree on a position
+    fn note(&mut self, cl: &Cluster, who: &[usize]) -> Result<(), String> {
+        for &i in who {
+            let log = cl.log_of(i);
+            for c in 1..=cl.nodes[i].commit_index() as usize {
+                let Some(e) = log.get(c - 1).copied() else { return Err(format!("{} reports position {c} committed but its log has {} entries", name(i), log.len())); };
+                match self.at.get(&c) {
+                    Some(e0) if *e0 != e => return Err(format!("{} reports (term {}, index {}) committed at position {c}; (term {}, index {}) was reported committed there before", name(i), e.0, e.1, e0.0, e0.1)),
+                    Some(_) => {},
+                    None => { self.at.insert(c, e); },
+                }
+            }
+        }
+        Ok(())
+    }
+    /// "every later leader's log contains that entry"
+    fn leaders_hold_all(&self, cl: &Cluster, who: &[usize]) -> Result<(), String> {
+        for &i in who {
+            if !cl.nodes[i].is_leader() { continue; }
+            let log = cl.log_of(i);
+            for (c, e) in &self.at {
+                if log.get(c - 1) != Some(e) {
+                    return Err(format!("{} leads term {} with log {:?}, which lacks the entry (term {}, index {}) reported committed at position {c}", name(i), cl.nodes[i].current_term(), log, e.0, e.1));
+                }
+            }
+        }
+        Ok(())
+    }
+}
+
+/// One history on three nodes: a leads term 1, commits `first` entries with b, finalizes and compacts them into a snapshot; b asks for
+/// the snapshot and the answer is DELAYED; a commits `more` further entries with b; the delayed snapshot reaches b at step `deliver_at`
+/// (0 = at once); then a is gone and b stands for election with c's vote.
+fn delayed_snapshot_history(first: usize, more: usize, deliver_at: u8) -> Result<(bool, String), String> {
+    let mut cl = Cluster::new(3);
+    let (a, b, c) = (0usize, 1usize, 2usize);
+    let mut rep = Reported::default();
+    let fail = |cl: &Cluster, at: &str, m: String| format!("after {at}: {m} | history: {}", cl.trace.join(" ; "));
+    if !cl.elect(a, &[b, c]) { return Err(format!("setup: a not elected | {}", cl.trace.join(" ; "))); }
+    cl.replicate(a, b, false); cl.replicate(a, c, false);
+    if !cl.propose(a, first) { return Err(format!("setup: propose refused | {}", cl.trace.join(" ; "))); }
+    cl.replicate(a, b, false); cl.replicate(a, b, false);            // b holds and (second message) learns the commit index
+    rep.note(&cl, &[a, b, c]).map_err(|m| fail(&cl, "first entries committed", m))?;
+    if cl.nodes[a].commit_index() != first as u64 { return Err(format!("setup: a commit {} instead of {first} | {}", cl.nodes[a].commit_index(), cl.trace.join(" ; "))); }
+    // the leader finalizes and compacts: it now has a snapshot to hand out
+    if cl.nodes[a].finalize_to(first as u64).is_err() { return Err("setup: finalize_to refused".into()); }
+    let Ok((meta, _)) = cl.nodes[a].create_snapshot() else { return Err("setup: create_snapshot refused".into()); };
+    if cl.nodes[a].truncate_log(&meta).is_err() { return Err("setup: truncate_log refused".into()); }
+    cl.trace.push(format!("a finalizes {first}, snapshots and compacts (log now {:?})", cl.log_of(a)));
+    if cl.log_of(a).len() != first { return Err(format!("setup: compaction cut the leader's log ({:?}); the history needs it whole | {}", cl.log_of(a), cl.trace.join(" ; "))); }
+    // b asks for the snapshot; the answer travels slowly
+    let req = Message::SnapshotRequest(tensor_chain::SnapshotRequest { requester_id: name(b), offset: 0, chunk_size: u64::MAX });
+    let Some(answer) = cl.nodes[a].handle_message(&name(b), &req) else { return Err(format!("setup: leader did not answer the snapshot request | {}", cl.trace.join(" ; "))); };
+    cl.trace.push(format!("b requests the snapshot; a answers with snapshot height {first}{}", if deliver_at == 0 { "" } else { " [answer DELAYED]" }));
+    let mut pending = Some(answer);
+    let mut deliver = |cl: &mut Cluster, pending: &mut Option<Message>| { if let Some(m) = pending.take() { let _ = cl.nodes[b].handle_message(&name(a), &m); cl.trace.push(format!("the snapshot answer reaches b: b now has commit {} and log {:?}", cl.nodes[b].commit_index(), cl.log_of(b))); } };
+    if deliver_at == 0 { deliver(&mut cl, &mut pending); }
+    if !cl.propose(a, more) { return Err(format!("setup: propose refused (2) | {}", cl.trace.join(" ; "))); }
+    cl.replicate(a, b, false); cl.replicate(a, b, false);
+    rep.note(&cl, &[a, b, c]).map_err(|m| fail(&cl, "further entries committed", m))?;
+    if deliver_at == 1 { deliver(&mut cl, &mut pending); }
+    rep.note(&cl, &[a, b, c]).map_err(|m| fail(&cl, "the delayed snapshot answer reached b", m))?;
+    // a is gone; b stands for election with c's vote
+    let led = cl.elect(b, &[c]);
+    rep.leaders_hold_all(&cl, &[b, c]).map_err(|m| fail(&cl, "b was elected without a", m))?;
+    Ok((led, format!("b leads: {led}; reported committed {:?}", rep.at)))
+}
+
+const OBS: [(&str, &str); 11] = [
+    ("C01.history.delayed_snapshot", "RaftNode::handle_message on three nodes (SnapshotResponse delayed while the follower catches up)"),
     ("C01.history.delayed_ack", "RaftNode::handle_message on five nodes (AppendEntriesResponse delayed across two leadership changes)"),
 
     ("C01.vote.once", "RaftNode::handle_message(RequestVote)"), ("C01.vote.uptodate", "RaftNode::handle_message(RequestVote)"), ("C01.term.monotone", "RaftNode::handle_message (every handler)"),
@@ -522,6 +596,15 @@ pub fn run(tier: Tier, seed: u64) -> Report {
             }
         } } } }
     }
+    // ---- cluster histories with a delayed snapshot answer (three real nodes)
+    for first in 1..=(if thorough { 3usize } else { 2 }) { for more in 1..=(if thorough { 3usize } else { 2 }) { for deliver_at in 0..=1u8 {
+        let case = json!({"history": "delayed_snapshot", "first": first, "more": more, "deliver_at": deliver_at});
+        match delayed_snapshot_history(first, more, deliver_at) {
+            Ok((led, _)) => { cx.rep.eval(led); cx.rep.check("C01.history.delayed_snapshot", true, &|| case.clone(), &String::new); },
+            Err(m) if m.starts_with("setup:") => { cx.skipped += 1; cx.rep.sample(json!({"note": "delayed_snapshot history could not be set up", "why": m.chars().take(300).collect::<String>()})); },
+            Err(m) => cx.rep.check("C01.history.delayed_snapshot", false, &|| case.clone(), &|| m.clone()),
+        }
+    } } }
     // ---- PreVote / TimeoutNow: term monotonicity and vote stability
     for (log, term) in &states {
         for v in &votes {
@@ -556,6 +639,10 @@ pub fn run(tier: Tier, seed: u64) -> Report {
 }
 
 pub fn replay(ob: &str, case: &Value) -> Result<String, String> {
+    if case["history"].as_str() == Some("delayed_snapshot") {
+        let u = |k: &str| case[k].as_u64().ok_or_else(|| format!("case.{k} missing"));
+        return delayed_snapshot_history(u("first")? as usize, u("more")? as usize, u("deliver_at")? as u8).map(|(_, d)| format!("history is safe at every step; {d}"));
+    }
     if case["history"].as_str() == Some("delayed_ack") {
         let u = |k: &str| case[k].as_u64().ok_or_else(|| format!("case.{k} missing"));
         return delayed_ack_history(u("stale_len")? as usize, u("mid_len")? as usize, u("new_len")? as usize, u("deliver_at")? as u8).map(|(_, d)| format!("history is safe at every step; {d}"));
